@@ -107,10 +107,10 @@ struct layout_transpose {
             requires(is_always_strided())
         {
             if (r == Extents::rank() - 1) {
-                return _nestedMapping.stride(r - 2);
+                return _nestedMapping.stride(r - 1);
             }
             if (r == Extents::rank() - 2) {
-                return _nestedMapping.stride(r - 1);
+                return _nestedMapping.stride(r + 1);
             }
             return _nestedMapping.stride(r);
         }
